@@ -121,6 +121,10 @@ class Term:
         # Now copy the content of t onto self
         self.__dict__.update(t.__dict__)
 
+        # The identity token must be that of self: t may be discarded, after
+        # which its address can be reused by an unrelated term.
+        self._id = id(self)
+
     def is_svar(self) -> bool:
         return self.ty == Term.SVAR
 
